@@ -94,6 +94,7 @@ def gen_case(rng, pool) -> dict:
     freq = rng.choice([1, 2, 4, 12, 365, 0])
     s = sc.rand_series_spec(rng, freq=freq, pool=pool, positive=rng.random() < 0.6, maxlen=10, allow_empty=False)
     by = -rng.randint(1, 3) if rng.random() < 0.9 else rng.choice([0, 1])
+    kw_cum = freq in (2, 4, 12) and rng.random() < 0.25          # keyword shifts: forward cumulation only
     q = rng.random()
     if q < 0.3:
         init = {"kind": "default"}
@@ -114,6 +115,10 @@ def gen_case(rng, pool) -> dict:
     else:
         a = s["start"] + rng.randint(0, n + 1)
         span = [a, a - rng.randint(0, n), -1]
+    if kw_cum:
+        by = rng.choice(list(KW))
+        if span is not None and span[2] < 0:
+            span = None
     return {"op": "cum", "kind": kind, "by": by, "init": init, "span": span, "s": s}
 
 
@@ -456,6 +461,60 @@ def falsify(ctx, hints):
                                              {"series": jump}, got.tolist(), want.tolist(), f"irispie.{kind}(x)"))
                 except Exception as e:  # noqa
                     fails.append(Failure(f"formula:{kind}:jumps:raises", f"{kind} raises {type(e).__name__}: {e}", {"series": jump}))
+        # 1d. ragged variants: a period where only SOME variants are observed keeps its values
+        if nv == 2 and length >= 5:
+            rag = [list(r) for r in spec["rows"]]
+            rag[0][1] = float("nan"); rag[-1][0] = float("nan")
+            specr = {**spec, "rows": rag}
+            xr = sc.mk_series(specr); XR = np.array(rag)
+            for kind in ("diff", "roc", "pct"):
+                try:
+                    y = getattr(ir, kind)(xr, -k)
+                    got = y.get_data(ir.Span(xr.start + k, xr.end))
+                    want = _formula(kind, XR[k:], XR[:-k], f)
+                    info["formula_checks"] += 1
+                    if not _close(got, want):
+                        fails.append(Failure(f"formula:{kind}:ragged-variants", f"{kind} loses or changes values in periods where only some variants are observed",
+                                             {"series": specr, "shift": -k}, got.tolist(), want.tolist(), f"irispie.{kind}(x, {-k})"))
+                except Exception as e:  # noqa
+                    fails.append(Failure(f"formula:{kind}:ragged:raises", f"{kind} raises {type(e).__name__}: {e}", {"series": specr}))
+        # 1e. keyword shift whose reference period lies outside the series: the result is missing there, never the level
+        if freq in (2, 4, 12):
+            y0 = (spec["start"] // freq) * freq
+            one_year = {**spec, "start": y0 + 1, "rows": spec["rows"][:max(1, min(length, freq - 1))]}
+            xo = sc.mk_series(one_year)
+            for kw in ("eopy", "soy"):
+                for kind in ("diff", "roc"):
+                    try:
+                        y = getattr(ir, kind)(xo, kw)
+                        info["formula_checks"] += 1
+                        got = y.get_data(ir.Span(xo.start, xo.end))
+                        if np.any(np.isfinite(got)):
+                            fails.append(Failure(f"keyword:{kw}:{kind}:no-reference", f"{kind}(x, '{kw}') returns a number where the reference period is not in the series",
+                                                 {"series": one_year, "shift": kw}, got.tolist(), "missing", f"irispie.{kind}(x, '{kw}')"))
+                    except Exception as e:  # noqa
+                        fails.append(Failure(f"keyword:{kw}:{kind}:no-reference:raises", f"raises {type(e).__name__}: {e}"[:200], {"series": one_year}))
+        # 1f. forward cumulation with keyword shifts inverts the change with the same keyword, on a span whose reference
+        #     periods all lie inside the sample (it starts at the first start-of-year period of the second year)
+        if freq in (2, 4, 12) and length >= 2 * freq + 1:
+            t0 = next(t for t in range(spec["start"] + freq, spec["start"] + length) if t % freq == 0)
+            i0 = t0 - spec["start"]
+            for kw in ("soy", "tty", "yoy", "eopy"):
+                for base, cum in (("diff", "cum_diff"), ("roc", "cum_roc")):
+                    try:
+                        ch = getattr(ir, base)(x, kw)
+                        sp = ir.Span(sc.mk_period(freq, t0), x.end)
+                        back = getattr(ir, cum)(ch, kw, x, sp)
+                        got = back.get_data(sp)
+                        info["inverse_checks"] += 1
+                        if not _close(got, X[i0:], 1e-8):
+                            fails.append(Failure(f"inverse:{cum}:{kw}", f"{cum} (forward, shift '{kw}') of {base} with the original as initial does not reproduce the series "
+                                                 "on a span whose reference periods are all inside the sample",
+                                                 {"series": spec, "shift": kw, "span_start_serial": t0}, got.tolist(), X[i0:].tolist(),
+                                                 f"irispie.{cum}(irispie.{base}(x,'{kw}'), '{kw}', x, span)"))
+                    except Exception as e:  # noqa
+                        fails.append(Failure(f"inverse:{cum}:{kw}:raises", f"{cum} with shift '{kw}' raises {type(e).__name__}: {e}"[:200],
+                                             {"series": spec, "shift": kw}))
         # 2. cumulation inverts change, forward and backward, original series as initial condition
         for base, cum in (("diff", "cum_diff"), ("diff_log", "cum_diff_log"), ("pct", "cum_pct"), ("roc", "cum_roc")):
             for direction in ("forward", "backward"):
